@@ -12,6 +12,8 @@ def kw(**d):
 SOUND_CUSTOM = ["ForbidWord"]
 ALL_CUSTOM = ["ForbidWord", "ForbidWord", "ForbidWordBadLocal", "ForbidWordNoneLocal", "NoLocations",
               "LazyHeuristic", "GivingUpHeuristic"]
+# + a heuristic that ignores the mutation space (breaks the precondition of C12, fine for C01)
+C01_CUSTOM = ALL_CUSTOM + ["OverwritingHeuristic", "OverwritingHeuristic"]
 
 
 def gen_constraints(rng, seq, allow_custom=True, hard=True, custom_kinds=None):
@@ -142,3 +144,49 @@ def build_problem(p):
     cs = [specs.build_spec(d) for d in p["constraints"]]
     os_ = [specs.build_spec(d) for d in p["objectives"]]
     return dc.DnaOptimizationProblem(p["seq"], constraints=cs, objectives=os_, logger=None)
+
+
+def neighbours(case, rng, k=160):
+    """variants of a solver case ("run", problem-json, entry) for the neighbourhood search: other
+    numpy seeds, boosts, thresholds, point substitutions of the sequence, objective order"""
+    import json
+    kind, pj, entry = case[0], case[1], case[2]
+    p = json.loads(pj)
+    out = []
+    boosts = [0.25, 0.5, 0.6, 0.7, 1.0, 1.5, 2.0, 4.0]
+    for _ in range(k):
+        q = json.loads(pj)
+        r = rng.random()
+        if r < 0.2:
+            q["np_seed"] = rng.randint(0, 10**6)
+        elif r < 0.55 and q["objectives"]:
+            objs = [list(o) for o in q["objectives"]]
+            for o in objs:
+                kwd = dict((a, b) for a, b in o[1])
+                if "boost" in kwd and rng.random() < 0.7:
+                    kwd["boost"] = rng.choice(boosts)
+                o[1] = sorted(kwd.items())
+            if rng.random() < 0.3:
+                rng.shuffle(objs)
+            q["objectives"] = objs
+            q["np_seed"] = rng.randint(0, 10**6)
+        elif r < 0.7:
+            q["cfg"]["threshold"] = rng.choice([0, 50, 2000, 10000])
+            q["cfg"]["mutations"] = rng.choice([1, 2, 3])
+            q["np_seed"] = rng.randint(0, 10**6)
+        else:
+            s = list(q["seq"])
+            for _ in range(rng.choice([1, 1, 2, 3])):
+                i = rng.randrange(len(s))
+                s[i] = rng.choice("ACGT")
+            q["seq"] = "".join(s)
+            if q["objectives"] and rng.random() < 0.5:
+                objs = [list(o) for o in q["objectives"]]
+                for o in objs:
+                    kwd = dict((a, b) for a, b in o[1])
+                    if "boost" in kwd:
+                        kwd["boost"] = rng.choice(boosts)
+                    o[1] = sorted(kwd.items())
+                q["objectives"] = objs
+        out.append((kind, json.dumps(q, sort_keys=True), entry) + tuple(case[3:]))
+    return out
